@@ -482,7 +482,13 @@ Section RetryQ.
   (* `again i` when member i is not available: the blocking acquisition of member i waits *)
   Definition again_blocks (again : nat -> prog) (f0 : St) : Prop :=
     forall done x rest w, locks = done ++ x :: rest -> quiet w -> (forall y, w_raw w y = f0 y) ->
-      can_all m (rleaves x) f0 = false -> exists w', run nopw t (again (length done)) w = (OBlocked, w').
+      can_all m (rleaves x) f0 = false ->
+      exists w', run nopw t (again (length done)) w = (OBlocked, w') /\ blocked_at t m w w' f0 [] (rleaves x).
+
+  (* blocked: what the thread holds is a proper prefix of the leaves of ONE member (nothing, if the member
+     is a plain lock) *)
+  Definition retry_blocked (w' : world) (f0 : St) : Prop :=
+    exists x, In x locks /\ exists w0, blocked_at t m w0 w' f0 [] (rleaves x).
 
   (* the inner loop with first_index = 0 and i >= 1: try everything after the first member *)
   Lemma run_retry_inner again f0 :
@@ -493,7 +499,8 @@ Section RetryQ.
       if can_all m (rsleaves todo) f0
       then exists w', run nopw t (retry_inner m locks again 0 (length done) locked todo) w = (ODone VUnit, w') /\
                       eff w w' (acq_all t m (rsleaves locks) f0)
-      else exists w', run nopw t (retry_inner m locks again 0 (length done) locked todo) w = (OBlocked, w').
+      else exists w', run nopw t (retry_inner m locks again 0 (length done) locked todo) w = (OBlocked, w') /\
+                      retry_blocked w' f0.
   Proof.
     intros Hag. induction todo as [|x r IH]; intros done w locked Hl Hd Q Hw Cd.
     - cbn [rsleaves flat_map can_all forallb]. exists w. split; [reflexivity|].
@@ -540,9 +547,10 @@ Section RetryQ.
         { intros y. rewrite (eff_raw _ _ _ E2).
           rewrite (rel_all_ext t m _ _ (acq_all t m (rsleaves done) f0)); [now apply rel_acq_all|].
           intros z. rewrite (eff_raw _ _ _ E1). apply Hw. }
-        destruct (Hag done x r w2 Hl Q2 Hw2 Cx) as [w3 R3]. exists w3.
-        rewrite (run_then_done _ _ _ _ _ VUnit w2); [exact R3|].
-        apply run_catch_done. rewrite (run_then_done _ _ _ _ _ _ _ R2). reflexivity.
+        destruct (Hag done x r w2 Hl Q2 Hw2 Cx) as [w3 [R3 B3]]. exists w3. split.
+        * rewrite (run_then_done _ _ _ _ _ VUnit w2); [exact R3|].
+          apply run_catch_done. rewrite (run_then_done _ _ _ _ _ _ _ R2). reflexivity.
+        * exists x. split; [rewrite Hl; apply in_or_app; right; now left|]. now exists w2.
   Qed.
 
   Lemma retry_outer_again_blocks f f0 : again_blocks (retry_outer m locks (S f)) f0.
@@ -554,7 +562,10 @@ Section RetryQ.
     assert (NDx : NoDup (locks_of (rleaves x))) by (eapply NoDup_app_l, NoDup_app_r; eauto).
     pose proof (run_rr_lock t m x w Q NDx) as H.
     rewrite (can_all_ext m (rleaves x) (w_raw w) f0 (fun y _ => Hw y)), Cx in H.
-    destruct H as [w' R]. exists w'. apply run_then_blocked. now apply run_catch_blocked.
+    destruct H as [w' [R [pre [rst [Hs [Hne Hb]]]]]]. exists w'. split.
+    - apply run_then_blocked. now apply run_catch_blocked.
+    - exists pre, rst. split; [exact Hs|]. split; [exact Hne|].
+      intros y. rewrite Hb. apply acq_all_ext. exact Hw.
   Qed.
 
   Lemma run_retry_lock fuel w :
@@ -562,7 +573,7 @@ Section RetryQ.
     if can_all m (rsleaves locks) (w_raw w)
     then exists w', run nopw t (retry_lock m locks fuel) w = (ODone VUnit, w') /\
                     eff w w' (acq_all t m (rsleaves locks) (w_raw w))
-    else exists w', run nopw t (retry_lock m locks fuel) w = (OBlocked, w').
+    else exists w', run nopw t (retry_lock m locks fuel) w = (OBlocked, w') /\ retry_blocked w' (w_raw w).
   Proof.
     intros Hf Q. unfold retry_lock. destruct locks as [|x rest] eqn:El.
     - exists w. split; [reflexivity|apply eff_refl].
@@ -591,9 +602,11 @@ Section RetryQ.
           -- rewrite (run_then_done _ _ _ _ _ VUnit w1) by (apply (run_catch_done _ _ _ _ _ _ _ R1)).
              rewrite Hin. exact R2.
           -- eapply eff_trans; eauto.
-        * destruct X as [w2 R2]. exists w2.
+        * destruct X as [w2 [R2 B2]]. exists w2. split; [|exact B2].
           rewrite (run_then_done _ _ _ _ _ VUnit w1) by (apply (run_catch_done _ _ _ _ _ _ _ R1)).
           rewrite Hin. exact R2.
-      + destruct H as [w1 R1]. exists w1. apply run_then_blocked. now apply run_catch_blocked.
+      + destruct H as [w1 [R1 B1]]. exists w1. split.
+        * apply run_then_blocked. now apply run_catch_blocked.
+        * exists x. split; [rewrite El; now left|]. now exists w.
   Qed.
 End RetryQ.
